@@ -126,6 +126,16 @@ func (f *c08File) open() (*parquet.File, error) {
 }
 
 // seekReader abstracts the reader kinds.
+// resetter is implemented by the readers that can be repositioned at the start.
+type resetter interface{ Reset() }
+
+func (g *genReader) Reset() { g.r.Reset() }
+func (r *rowsReader) Reset() {
+	if rr, ok := r.r.(interface{ Reset() }); ok {
+		rr.Reset()
+	}
+}
+
 type seekReader interface {
 	Seek(k int64) error
 	// Read asks for n rows; returns the canonical strings of what came back.
@@ -281,7 +291,15 @@ func (v *valueReader) Read(n int) ([]string, error) {
 }
 func (v *valueReader) Close() error { return v.r.Close() }
 
-var c08Readers = []string{"Reader", "GenericReader", "RowGroup.Rows", "MultiRowGroup.Rows", "Buffer.Rows", "Pages(ID)", "Pages(O)", "Pages(L)", "Pages(N.K)", "Pages(D)", "ValueReader(L)", "ValueReader(D)"}
+var c08Readers = []string{"Reader", "GenericReader", "RowGroup.Rows", "MultiRowGroup.Rows", "Buffer.Rows", "Pages(ID)", "Pages(O)", "Pages(L)", "Pages(N.K)", "Pages(D)", "ValueReader(L)", "ValueReader(D)",
+	// Column.Pages spans all row groups with its own seeking code; range views
+	// are the row-range row groups of the merge planner (rows [2,8) here)
+	"ColumnPages(ID)", "ColumnPages(L)", "RangeView.Rows", "RangeView.Pages(L)", "RangeView.Pages(D)",
+	// ConvertRowReader over a source that only implements RowReader: seeks are
+	// emulated by skipping forward (a backward seek may be refused)
+	"ConvertRowReader(forward-only)"}
+
+const c08RangeOff, c08RangeLen = 2, 6
 
 // open returns the reader and the expected canonical rows.
 func c08Open(f *c08File, kind string) (seekReader, []string, error) {
@@ -337,6 +355,39 @@ func c08Open(f *c08File, kind string) (seekReader, []string, error) {
 	case kind == "MultiRowGroup.Rows":
 		rows := parquet.MultiRowGroup(pf.RowGroups()...).Rows()
 		return &rowsReader{r: rows, c: rows}, streamOf(f.prows), nil
+	case kind == "ConvertRowReader(forward-only)":
+		src := parquet.MultiRowGroup(pf.RowGroups()...).Rows()
+		conv, err := parquet.Convert(pf.Schema(), pf.Schema())
+		if err != nil {
+			return nil, nil, err
+		}
+		rr := parquet.ConvertRowReader(struct{ parquet.RowReader }{src}, conv)
+		sk, ok := rr.(interface {
+			parquet.RowReader
+			SeekToRow(int64) error
+		})
+		if !ok {
+			return nil, nil, fmt.Errorf("ConvertRowReader result has no SeekToRow")
+		}
+		return &rowsReader{r: sk, c: src}, streamOf(f.prows), nil
+	case strings.HasPrefix(kind, "ColumnPages("):
+		name := strings.TrimSuffix(strings.TrimPrefix(kind, "ColumnPages("), ")")
+		col := colOf(name)
+		return &pagesReader{p: pf.Root().Column(name).Pages(), col: col}, colRows(col), nil
+	case strings.HasPrefix(kind, "RangeView."):
+		var base parquet.RowGroup
+		if len(pf.RowGroups()) == 1 {
+			base = pf.RowGroups()[0]
+		} else {
+			base = parquet.MultiRowGroup(pf.RowGroups()...)
+		}
+		view := parquet.VerifRowRange(base, c08RangeOff, c08RangeLen)
+		if kind == "RangeView.Rows" {
+			rows := view.Rows()
+			return &rowsReader{r: rows, c: rows}, streamOf(f.prows)[c08RangeOff : c08RangeOff+c08RangeLen], nil
+		}
+		col := colOf(strings.TrimSuffix(strings.TrimPrefix(kind, "RangeView.Pages("), ")"))
+		return &pagesReader{p: view.ColumnChunks()[col].Pages(), col: col}, colRows(col)[c08RangeOff : c08RangeOff+c08RangeLen], nil
 	case strings.HasPrefix(kind, "Pages("):
 		col := colOf(strings.TrimSuffix(strings.TrimPrefix(kind, "Pages("), ")"))
 		var chunk parquet.ColumnChunk
@@ -389,7 +440,7 @@ func c08Run(x *engine.X) {
 	}
 	defer r.Close()
 	N := len(exp)
-	isPages := strings.HasPrefix(kind, "Pages(")
+	isPages := strings.Contains(kind, "Pages(")
 	shape := func(op string) string {
 		return fmt.Sprintf("reader=%s;file=%s;at=%s", kind, f.desc, op)
 	}
@@ -435,6 +486,10 @@ func c08Run(x *engine.X) {
 	if isPages {
 		nops = (N + 1) + 1
 	}
+	canReset := kind == "Reader" || kind == "GenericReader"
+	if canReset {
+		nops++ // Reset(): the reader is back at row 0, whatever happened before
+	}
 	for d := 0; d < D; d++ {
 		c := x.Choose(nops+1, "op")
 		if c == 0 {
@@ -445,6 +500,9 @@ func c08Run(x *engine.X) {
 			op := fmt.Sprintf("Seek(%d)", c)
 			hist = append(hist, op)
 			if err := r.Seek(int64(c)); err != nil {
+				if kind == "ConvertRowReader(forward-only)" && c < pos {
+					continue // backward seek refused by a forward-only source: position unchanged
+				}
 				if c == N {
 					x.Descf("%v", hist)
 					x.Outcome("seek-end-error")
@@ -454,6 +512,12 @@ func c08Run(x *engine.X) {
 				return
 			}
 			pos = c
+			continue
+		}
+		if canReset && c == nops-1 {
+			hist = append(hist, "Reset")
+			r.(resetter).Reset()
+			pos = 0
 			continue
 		}
 		n := []int{1, 2, N + 1}[c-(N+1)]
@@ -501,7 +565,7 @@ func init() {
 		ID:    "C08",
 		Level: "model_checking",
 		MC:    true,
-		Rule: "64 files (data page v1/v2 x page index or SkipPageIndex x 1/3 row groups x none/snappy x read buffer default/16 x sync/async) of 10 nested rows with 1-3 rows per page x 12 reader kinds (Reader, GenericReader, RowGroup.Rows, MultiRowGroup.Rows, Buffer.Rows, Pages of 5 columns, ColumnChunkValueReader of 2 columns) x ALL operation sequences of length <= D (3 quick, 4 thorough; one deeper on the 4 plain v1/v2 files) over SeekToRow(0..N) and Read(1|2|N+1)/ReadPage, then drained; cursor model oracle on every step; " +
+		Rule: "64 files (data page v1/v2 x page index or SkipPageIndex x 1/3 row groups x none/snappy x read buffer default/16 x sync/async) of 10 nested rows with 1-3 rows per page x 18 reader kinds (ConvertRowReader over a forward-only source, Reader, GenericReader, RowGroup.Rows, MultiRowGroup.Rows, Buffer.Rows, ColumnChunk.Pages of 5 columns, ColumnChunkValueReader of 2 columns, Column.Pages of 2 columns, and the merge planner's row-range view of rows [2,8) read as rows and as pages of 2 columns) x ALL operation sequences of length <= D (3 quick, 4 thorough; one deeper on the 4 plain v1/v2 files) over SeekToRow(0..N), Read(1|2|N+1)/ReadPage and, on Reader and GenericReader, Reset(), then drained; cursor model oracle on every step; " +
 			"non-trivial = >=2 operations before the drain",
 		Assumptions: []string{"a refused SeekToRow(N) (seek to the very end) is accepted; async mode runs here under the free Go scheduler as a sequential client (its interleavings are C15's)"},
 		Bound:       func(string) int { return 0 },
